@@ -53,7 +53,16 @@ CONFIGS = {
 }
 
 
+import threading
+_cfg_lock = threading.Lock()
+
+
 def config_dir(name):
+    with _cfg_lock:
+        return _config_dir(name)
+
+
+def _config_dir(name):
     d = os.path.join(scratch(), "cfg-" + name)
     if not os.path.isdir(d):
         os.makedirs(d)
@@ -133,10 +142,16 @@ class Job:
         return ["-DHAVE_CONFIG_H", "-I" + config_dir(self.config), "-I" + SRC, "-I" + HARN, "-I" + MODELS]
 
     def cbmc_cmd(self, trace_prop=None):
-        cmd = ["cbmc"] + self.incflags() + self.dflags() + [self.harness] + self.cbmc_srcs
+        pp = []
+        ex = list(self.extra)
+        while "-include" in ex:                       # preprocessor options must precede the sources
+            i = ex.index("-include")
+            pp += ex[i:i + 2]
+            del ex[i:i + 2]
+        cmd = ["cbmc"] + self.incflags() + pp + self.dflags() + [self.harness] + self.cbmc_srcs
         cmd += [instrumented_gb(self, src, funcs) for src, funcs in self.instrument]
         flags = list(CBMC_FLAGS)
-        extra = list(self.extra)
+        extra = ex
         if "--no-pointer-overflow-check-marker" in extra:
             extra.remove("--no-pointer-overflow-check-marker")
             flags.remove("--pointer-overflow-check")
